@@ -78,6 +78,11 @@ def _section(rng, L, kind=None):
     f = {"const": lambda x: a + 0.0 * x, "linear": lambda x: a * (1 + b * x / L), "gauss": lambda x: a * (1 - b * np.exp(-((x - 0.45 * L) / (0.2 * L)) ** 2)),
          "exp": lambda x: a * np.exp(b * x / L), "poly": lambda x: a * (1 + b * (2 * x / L - 1) ** 2)}[kind]
     f.desc = "%s(a=%g,b=%g)" % (kind, a, b)
+    if rng.random() < 0.4:
+        # the geometric source depends on (dA/dx)/A only: the UNITS of the section (mm^2 ... km^2) must not matter
+        sc = float(10 ** rng.uniform(-9, 9)); g = f
+        f = lambda x: sc * g(x)
+        f.desc = "%g * %s" % (sc, g.desc)
     return f, kind
 
 
